@@ -331,7 +331,57 @@ def inline_call(caller, bb, callee, callee_path, clo_alias):
         stmts.append({"k": "assign", "place": {"l": loff + 1 + i, "p": []}, "rv": {"use": copy.deepcopy(a)}, "span": span, "inl": "arg"})
     entry, ret_blocks = _append_callee(caller, callee, callee_path, loff, clo_alias, None, call["dest"], cont, unwind, span, False)
     caller["blocks"][bb]["term"] = {"k": "goto", "target": entry, "inlined_call": callee_path, "span": span}
+    # reference arguments: `helper(&mut self.pos)` - inside the inlined body `(*pos)` is the caller's place itself
+    subst = {}
+    for i, a in enumerate(call["args"]):
+        p = a.get("move") or a.get("copy")
+        if p is None or p["p"]:
+            continue
+        tgt = _resolve_ref(caller, p["l"])
+        if tgt is not None:
+            subst[loff + 1 + i] = tgt
+    if subst:
+        for blk in caller["blocks"][entry:]:
+            blk["stmts"] = _subst_derefs(blk["stmts"], subst)
+            blk["term"] = _subst_derefs(blk["term"], subst)
     _thread_returns(caller, callee, entry, ret_blocks, call["dest"], cont, False)
+
+
+def _resolve_ref(body, local, depth=0):
+    """the place a single-assignment reference local points to (through reborrows `&mut *r`), or None"""
+    if depth > 6:
+        return None
+    d = _single_def(body, local)
+    if d is None or d[0] != "assign":
+        return None
+    rv = d[2]["rv"]
+    if "use" in rv:
+        q = rv["use"].get("move") or rv["use"].get("copy")
+        if q is not None and not q["p"]:
+            return _resolve_ref(body, q["l"], depth + 1)
+        return None
+    if "ref" not in rv:
+        return None
+    pl = rv["ref"]
+    if pl["p"] and pl["p"][0] == "deref":
+        inner = _resolve_ref(body, pl["l"], depth + 1)
+        if inner is not None:
+            return {"l": inner["l"], "p": copy.deepcopy(inner["p"]) + copy.deepcopy(pl["p"][1:])}
+    return pl
+
+
+def _subst_derefs(x, subst):
+    """replace places `(*param).rest` by `place.rest` for reference parameters bound to a caller place"""
+    if isinstance(x, dict):
+        if "l" in x and "p" in x and isinstance(x["l"], int):
+            if x["l"] in subst and x["p"] and x["p"][0] == "deref":
+                base = subst[x["l"]]
+                return {"l": base["l"], "p": copy.deepcopy(base["p"]) + [_subst_derefs(e, subst) for e in x["p"][1:]]}
+            return {"l": x["l"], "p": [_subst_derefs(e, subst) for e in x["p"]]}
+        return {k: _subst_derefs(v, subst) for k, v in x.items()}
+    if isinstance(x, list):
+        return [_subst_derefs(v, subst) for v in x]
+    return x
 
 
 def _single_def(body, local):
